@@ -74,4 +74,41 @@ def pinTourB (pin : Pin) (actor : Nat) (acts : List Nat) : Bool :=
 def pinB (pin : Pin) (tours : List (Nat × List Nat)) : Bool :=
   tours.all (fun t => pinTourB pin t.1 t.2)
 
+/-! ## the strict-lock insertion rule (`Rule::can_insert`, locked_jobs.rs)
+
+`js` are the jobs of a strict lock in their order, `prev` / `next` the jobs of the activities around the insertion
+point (`none` = the tour's start / end), `job` the job being inserted. -/
+inductive LockPos where
+  | any | departure | arrival | fixed
+deriving DecidableEq, Repr
+
+def inRule (js : List Nat) : Option Nat → Bool
+  | some j => js.contains j
+  | none => false
+
+/-- `can_insert_after`: the previous activity is outside the rule or is its last job, and the next one is outside -/
+def canAfter (js : List Nat) (prev next : Option Nat) : Bool :=
+  (match prev with | some p => !js.contains p || some p == js.getLast? | none => false) &&
+  (match next with | some n => !js.contains n | none => true)
+
+/-- `can_insert_before`: the next activity is outside the rule or is its first job, and the previous one is outside -/
+def canBefore (js : List Nat) (prev next : Option Nat) : Bool :=
+  (match next with | some n => !js.contains n || some n == js.head? | none => false) &&
+  (match prev with | some p => !js.contains p | none => true)
+
+def canInsert (pos : LockPos) (js : List Nat) (job prev next : Option Nat) : Bool :=
+  inRule js job ||
+  (match pos with
+   | .any => canAfter js prev next || canBefore js prev next
+   | .departure => canAfter js prev next
+   | .arrival => canBefore js prev next
+   | .fixed => false)
+
+/-- the jobs of the activities around insertion index `i` of a tour given by the jobs of its job activities -/
+def prevAt (acts : List Nat) (i : Nat) : Option Nat := if i = 0 then none else acts[i - 1]?
+def nextAt (acts : List Nat) (i : Nat) : Option Nat := acts[i]?
+
+/-- insertion of job `x` before index `i` -/
+def insertJob (acts : List Nat) (i : Nat) (x : Nat) : List Nat := acts.take i ++ x :: acts.drop i
+
 end C04
